@@ -53,7 +53,7 @@ T = {
          "OS scheduler not owned; the saved case with its delay plan is the reproducible unit; hang = > 60 s and reproduced", "6 C15"),
  "C16": ("differential vs independent vector bearing; proptest",
          "2 M (quick) / 100 M (thorough) generated locations incl. the Kaaba meridian/antimeridian, date line, poles' neighbourhood are compared with a vector computation within 1e-6 deg, plus range, rotation label, printed text and elevation independence.",
-         "-180.0 accepted at due-south bearings (same direction as 180 within the 1e-6 tolerance)", "6 C16"),
+         "(-180,180] taken literally: -180.0 is a violation (D13); at a bearing of exactly 0 either rotation label is accepted", "6 C16"),
  "C17": ("differential vs integer tabular-calendar model; exhaustive enumeration of all 3,652,059 dates",
          "Every date 0001-01-01..9999-12-31 is converted and compared field by field (year, month, day, era, weekday, printed text) with an integer model, under catch_unwind; exhaustive over the property's whole input space on every run.",
          "chrono's proleptic Gregorian calendar trusted; oracle structure self-tested", "6 C17"),
